@@ -27,6 +27,7 @@ def run(ctx):
     check_tables(ctx, prog)
     check_urlset(ctx, prog)
     check_stride(ctx, prog)
+    check_sha_padding(ctx, prog)
     check_decode(ctx, prog)
     return __doc__.split('\n\n', 1)[1]
 
@@ -427,6 +428,81 @@ def check_stride(ctx, prog):
                       'encodeBase64 sizes its output as `%s`, which is %s for n = %s, not 4 * ceil(n / 3)' % (pe(args[-1]), bad[1] if bad else '', bad[0] if bad else ''))
         except bytesets.Undecidable as u:
             ctx.undecided('C15.stride', f['pq'], role, fwhere(f, outs[0]['l']), 'output length not evaluable from n: %s' % u)
+
+
+def check_sha_padding(ctx, prog):
+    """C15.shapad: the sequence of 64-byte blocks SHA1::update()/end() hand to transform() is exactly the FIPS 180-4 padding of
+    the message (message, 0x80, zeros to 56 mod 64, 64-bit big-endian bit length) for every message length 0..200 and for the
+    message split over two update() calls.  update() and end() are interpreted (scansim) with the data abstracted to a marker
+    byte and transform() replaced by a recorder: control in these functions depends on lengths only."""
+    import scansim
+    upd = fn1(prog, 'asl::SHA1::update')
+    end = fn1(prog, 'asl::SHA1::end')
+    ctx.analysed(end)
+    role = 'SHA1:blocks handed to transform() are the FIPS 180-4 padded message'
+
+    def ignore(st):
+        # digest extraction and wiping of the object do not take part in block bookkeeping
+        from ir import stmt_exprs
+        for e in stmt_exprs(st):
+            if e.get('k') == 'mem' and e.get('f') == 'state':
+                return True
+            if e.get('k') == 'call' and e.get('fn') == 'memset':
+                return True
+            if e.get('k') == 'var' and T(end, e.get('dt') or e.get('t')).get('rec'):
+                return True
+        if st.get('k') == 'decl' and all(T(end, v['t']).get('rec') for v in st['vars']):
+            return True
+        return False
+    bad = None
+    und = None
+    runs = 0
+    lengths = list(range(0, 200)) if ctx.tier == 'thorough' else list(range(0, 131))
+    for L in lengths:
+        for split in sorted(set([L, L // 2, min(L, 1), min(L, 63), min(L, 64)])):
+            blocks = []
+
+            def transform(run, e, args, blocks=blocks):
+                p_ = args[0]
+                blocks.append([run.load(('P', p_[1], p_[2] + j), e.get('l')) for j in range(64)])
+                return None
+            bufs = {'DATA': [0x41] * L, 'M.count': [0, 0], 'M.buffer': [0] * 64, 'M.state': [0] * 5}
+            mems = {'count': ('P', 'M.count', 0), 'buffer': ('P', 'M.buffer', 0), 'state': ('P', 'M.state', 0)}
+            methods = {'transform': transform, 'update': 'interp'}
+            try:
+                for (off, n_) in ((0, split), (split, L - split)):
+                    if n_ == 0 and L != 0 and split != L:
+                        continue
+                    r = scansim.Run(prog, upd, bufs, ptr_params={upd['params'][0]['id']: ('P', 'DATA', off)}, int_params={upd['params'][1]['id']: n_}, mems=mems, methods=methods, ignore=ignore)
+                    r.run()
+                    if split == L:
+                        break
+                r = scansim.Run(prog, end, bufs, mems=mems, methods=methods, ignore=ignore)
+                r.run()
+            except scansim.OOB as o:
+                bad = (L, split, 'out-of-bounds access: %s' % o)
+                break
+            except scansim.Unsupported as u:
+                und = (L, str(u))
+                break
+            runs += 1
+            want = [0x41] * L + [0x80]
+            while len(want) % 64 != 56:
+                want.append(0)
+            want += [(L * 8 >> (8 * (7 - i))) & 255 for i in range(8)]
+            got = [b & 255 for blk in blocks for b in blk]
+            if got != want:
+                bad = (L, split, '%d block(s) of %d expected; first difference at byte %s' % (len(blocks), len(want) // 64, next((i for i, (a_, b_) in enumerate(zip(got, want)) if a_ != b_), min(len(got), len(want)))))
+                break
+        if bad or und:
+            break
+    ctx.evaluations += runs
+    if bad:
+        ctx.violation('C15.shapad', end['pq'], role, fwhere(end), 'for a %d-byte message (fed as %d + %d bytes) the blocks passed to transform() are not the FIPS 180-4 padding: %s' % (bad[0], bad[1], bad[0] - bad[1], bad[2]))
+    elif und:
+        ctx.undecided('C15.shapad', end['pq'], role, fwhere(end), 'outside the interpreted fragment (message length %d): %s' % und)
+    else:
+        ctx.ok('C15.shapad', end['pq'], role, fwhere(end), '%d (length, split) histories: block sequence = message, 0x80, zeros, 64-bit big-endian bit length' % runs)
 
 
 def check_decode(ctx, prog):
